@@ -138,6 +138,13 @@ def run(ctx):
     r043(ctx)
     r044(ctx)
     r045(ctx)
+    # expr_in_step re-creates every node whose children were renamed to step symbols through the expression-level
+    # rebuild step (expr/transform.rs, an anchor of this property): its table is a prerequisite of faithfulness
+    from . import c01
+    from ..tables import T0, T1
+    ctx.rule("R01.1", "update_expr_children rebuilds the same operator with the same attributes over the rewritten children in the same positions (shared with C01)")
+    t0 = T0(ctx)
+    c01.r011(ctx, t0, T1(ctx, t0))
 
 
 CLASS_ATOMS = ["info.uses.init>0", "info.uses.next>0", "info.uses.other>0", "info.is_input"]
